@@ -12,8 +12,9 @@ Import ListNotations.
 Open Scope Z_scope.
 
 (* every source position of the OHWI volume occurs exactly once in the stream, every other stream
-   position is zero padding; for all valid configurations (positive sizes, block depths multiples
-   of the micro-block depths, depthwise volumes of ifm depth 1 and not part-kernel-first) *)
+   position is zero padding; for all valid configurations (positive sizes; ofm block depth a
+   multiple of the ofm micro-block depth or a single ofm block; ifm block depth 16/32 a multiple of
+   the ifm micro-block depth; depthwise volumes of ifm depth 1 and not part-kernel-first) *)
 Theorem reorder_is_padded_permutation :
   forall c, valid_cfg c ->
     (forall i, In (Some i) (reorder c) -> in_volume c i) /\
